@@ -232,6 +232,36 @@ theorem C05_min_max (m : Layout) (p : Nat → Int) (hm : IsPerm m) (hpos : 0 < m
   · obtain ⟨s, hs, hsk, _⟩ := hm.2 k hk; rw [← hsk]; exact a2 s hs
   · obtain ⟨s, hs, hsk, _⟩ := hm.2 k hk; rw [← hsk]; exact b2 s hs
 
+/-! ### packed pixels with unused bits -/
+
+/-- equality of two packed pixels of one type depends on the channels' bits only: if the two bit fields agree on the
+    bits the channels occupy, the pixels are equal -- whatever the unused (spare / padding) bits hold -/
+theorem C05_packed_equal_ignores_spare (widths : List Nat) (f g : Nat)
+    (h : ∀ i, i < totalBits widths → f.testBit i = g.testBit i) : packedEqual widths f g = true := by
+  have key : ∀ (ws : List Nat) (lo : Nat), (∀ i, lo ≤ i → i < lo + totalBits ws → f.testBit i = g.testBit i) →
+      channelsFrom f lo ws = channelsFrom g lo ws := by
+    intro ws
+    induction ws with
+    | nil => intro lo _; rfl
+    | cons w ws ih =>
+      intro lo hb
+      simp only [channelsFrom, totalBits] at *
+      have hslice : (f >>> lo) % 2 ^ w = (g >>> lo) % 2 ^ w := by
+        apply Nat.eq_of_testBit_eq; intro i
+        simp only [Nat.testBit_mod_two_pow, Nat.testBit_shiftRight]
+        by_cases hi : i < w
+        · rw [hb (lo + i) (by omega) (by omega)]
+        · simp [hi]
+      rw [hslice, ih (lo + w) (fun i h1 h2 => hb i (by omega) (by omega))]
+  unfold packedEqual
+  rw [key widths 0 (fun i _ hi => h i (by omega))]
+  exact beq_self_eq_true _
+
+/-- and it is exactly channel-wise equality -/
+theorem C05_packed_equal_iff (widths : List Nat) (f g : Nat) :
+    packedEqual widths f g = true ↔ channelsFrom f 0 widths = channelsFrom g 0 widths := by
+  unfold packedEqual; exact beq_iff_eq
+
 /-! ### the provided tables (generated from the headers on every run; decided by the kernel) -/
 
 /-- every provided layout is a permutation of its colour space's size -/
@@ -265,6 +295,8 @@ theorem C05_ctor_tables :
 example : IsPerm [1, 2, 3, 0] ∧ IsPerm [2, 1, 0, 3] ∧ ¬ IsPerm [1, 2, 0, 0] := by decide
 -- an argb pixel (memory a=9 r=1 g=2 b=3) converted to bgra has memory b g r a = 3 2 1 9
 example : (List.range 4).map (construct [2, 1, 0, 3] [1, 2, 3, 0] (fun k => [9, 1, 2, 3].getD k 0)) = [3, 2, 1, 9] := by decide
+-- bgr432 in a uint16_t: 0xFFB7 (spare bits all 1) and 0x01B7 hold the same channels b=7 g=3 r=3... and compare equal
+example : packedEqual [4, 3, 2] 0xFFB7 0x01B7 = true ∧ packedEqual [4, 3, 2] 0xFFB7 0x01B6 = false := by decide
 example : staticMinIdx [2, 1, 0] (fun k => [5, 3, 7].getD k 0) = 1 ∧ staticMaxIdx [2, 1, 0] (fun k => [5, 3, 7].getD k 0) = 2 := by decide
 
 end GilVerif.Props.C05
